@@ -436,6 +436,214 @@ func (c *c13Ctx) verifyMemo(rr, ss *big.Int, k *c13Key, id []byte) bool {
 	return v
 }
 
+// ---------------------------------------------------------------------------
+// Forgeries that need no private key
+// ---------------------------------------------------------------------------
+
+// refForgeE0 builds, from the victim's PUBLIC key only, the (r,s,v) that
+// recovers that key for a message hash whose integer value is 0 (mod n):
+// R = a*P, r = R.x, s = r/a  =>  r^-1 (s*R - 0*G) = P.
+func refForgeE0(victim *refPt, a *big.Int) []byte {
+	R := refMul(a, victim)
+	if R == nil {
+		return nil
+	}
+	rr := new(big.Int).Mod(R.X, c13N)
+	if rr.Sign() == 0 {
+		return nil
+	}
+	ainv := new(big.Int).ModInverse(a, c13N)
+	ss := new(big.Int).Mul(rr, ainv)
+	ss.Mod(ss, c13N)
+	if ss.Sign() == 0 {
+		return nil
+	}
+	v := byte(R.Y.Bit(0))
+	if R.X.Cmp(c13N) >= 0 {
+		v |= 2
+	}
+	return append(append(refPad32(rr), refPad32(ss)...), v)
+}
+
+type c13Hash struct {
+	label string
+	bytes []byte
+}
+
+func c13ForgeHashes(realID []byte) []c13Hash {
+	z := func(n int) []byte { return make([]byte, n) }
+	return []c13Hash{
+		{"nil", nil},
+		{"empty-non-nil", []byte{}},
+		{"1-byte-00", []byte{0}},
+		{"1-byte-01", []byte{1}},
+		{"31-zero-bytes", z(31)},
+		{"32-zero-bytes", z(32)},
+		{"32-bytes-n", refPad32(c13N)},
+		{"32-bytes-real-id", realID},
+		{"33-bytes-zero-then-01", append(z(32), 1)},
+		{"33-bytes-01-then-zero", append([]byte{1}, z(32)...)},
+		{"33-zero-bytes", z(33)},
+		{"64-zero-bytes", z(64)},
+	}
+}
+
+// forgeCrypto: crypto level. A signature forged from the public key alone may
+// recover / verify under the victim key only where textbook ECDSA says it is a
+// valid signature for a legal (1..32 byte) hash, i.e. only for e = 0 (mod n).
+func (c *c13Ctx) forgeCrypto(k *c13Key, a *big.Int, h c13Hash) {
+	r := c.r
+	r.Eval(1)
+	sigb := refForgeE0(k.pub, a)
+	if sigb == nil {
+		return
+	}
+	cs := map[string]string{"victim": k.name, "a": a.Text(16), "hash": h.label, "hash_hex": hex.EncodeToString(h.bytes), "hash_is_nil": fmt.Sprint(h.bytes == nil), "sig_hex": hex.EncodeToString(sigb)}
+	r.Nontrivial("forge/" + k.name + "/" + a.Text(16) + "/" + h.label)
+	rr, ss := new(big.Int).SetBytes(sigb[:32]), new(big.Int).SetBytes(sigb[32:64])
+	legal := len(h.bytes) >= 1 && len(h.bytes) <= 32
+	valid := legal && refVerify(rr, ss, k.pub, h.bytes)
+	sig, err := crypto.ParseSignature(sigb)
+	if err != nil {
+		return // v>1 forms etc. are simply not representable: fine
+	}
+	refUn := append([]byte{4}, append(refPad32(k.pub.X), refPad32(k.pub.Y)...)...)
+	var pk *crypto.PublicKey
+	if p := ev.Catch(func() { pk, err = sig.RecoverPublicKey(h.bytes) }); p != "" {
+		r.Violation("RecoverPublicKey-panics/hash="+h.label, p, cs)
+		return
+	}
+	if !legal && err == nil {
+		r.Violation("RecoverPublicKey-accepts-illegal-hash/hash="+h.label, fmt.Sprintf("a hash of %d bytes (nil=%v) was accepted: %v", len(h.bytes), h.bytes == nil, cs), cs)
+	}
+	if pk != nil && bytes.Equal(pk.SerializeUncompressed(), refUn) {
+		if !valid {
+			r.Violation("forged-signature-recovers-victim-key/hash="+h.label,
+				fmt.Sprintf("a signature built from the PUBLIC key of %s alone recovers that key for hash %q (%d bytes): %v", k.name, h.label, len(h.bytes), cs), cs)
+		} else {
+			c.count("forgery_mathematically_valid_e0_recovered", 1)
+		}
+	} else {
+		c.count("forgery_not_recovered", 1)
+	}
+	var ok bool
+	if p := ev.Catch(func() { ok = sig.Verify(h.bytes, k.priv.PublicKey()) }); p != "" {
+		r.Violation("Signature.Verify-panics/hash="+h.label, p, cs)
+		return
+	}
+	if ok && !valid {
+		r.Violation("Signature.Verify-accepts-forgery/hash="+h.label, fmt.Sprintf("%v", cs), cs)
+	}
+}
+
+// un-hashable / odd data shapes (raw JSON text of the `data` member)
+var c13OddData = []struct{ name, dataType, data string }{
+	{"true", "", `true`},
+	{"false", "", `false`},
+	{"number", "", `1`},
+	{"fraction", "", `1.5`},
+	{"dict-bool-leaf", "", `{"a":true}`},
+	{"list-number-bool", "", `[1,true]`},
+	{"nested-bool-leaf", "", `{"a":{"b":[false]}}`},
+	{"string-no-type", "", `"0x1234"`},
+	{"null", "", `null`},
+	{"empty-dict", "", `{}`},
+	{"empty-list", "", `[]`},
+	{"not-json", "", `tru`},
+	{"message-true", "message", `true`},
+	{"unknown-type-true", "base", `{"a":true}`},
+	{"deposit-true", "deposit", `true`},
+	{"no-data", "", ``},
+}
+
+type c13ForgeTx struct {
+	Victim int    `json:"victim_key"`
+	Data   string `json:"data_shape"`
+	A      string `json:"a_hex"`
+	Sig    string `json:"sig_hex"`
+	Forge  bool   `json:"forged_tx_case"`
+}
+
+// forgeTx: transaction level. from = victim, signature forged from the public
+// key; every constructor; accepted only if there is a real 32-byte id under
+// which (r,s) verifies for the victim (never the case for these).
+func (c *c13Ctx) forgeTx(ki, di int, a *big.Int) {
+	r := c.r
+	k := c.keys[ki]
+	od := c13OddData[di]
+	sigb := refForgeE0(k.pub, a)
+	if sigb == nil {
+		return
+	}
+	cs := c13ForgeTx{Victim: ki, Data: od.name, A: a.Text(16), Sig: hex.EncodeToString(sigb), Forge: true}
+	r.Nontrivial("forgetx/" + k.name + "/" + od.name + "/" + cs.A)
+	rr, ss := new(big.Int).SetBytes(sigb[:32]), new(big.Int).SetBytes(sigb[32:64])
+	attacker := "hx00000000000000000000000000000000000a77ac"
+	nid := common.HexInt64{Value: 1}
+	m := c13Bin{
+		Version:   common.HexUint16{Value: 3},
+		From:      *common.MustNewAddressFromString(k.addr),
+		To:        *common.MustNewAddressFromString(attacker),
+		Value:     common.NewHexInt(1000000000),
+		StepLimit: *common.NewHexInt(1000000),
+		TimeStamp: common.HexInt64{Value: 1700000000000000},
+		NID:       &nid,
+		Signature: sigb,
+	}
+	if od.dataType != "" {
+		dt := od.dataType
+		m.DataType = &dt
+	}
+	if od.data != "" {
+		m.Data = json.RawMessage(od.data)
+	}
+	bin, err := codec.MarshalToBytes(&m)
+	if err != nil {
+		panic(err)
+	}
+	var jb strings.Builder
+	jb.WriteString(`{"version":"0x3","from":"` + k.addr + `","to":"` + attacker + `","value":"0x3b9aca00","stepLimit":"0xf4240","timestamp":"0x60a0e4bc5a000","nid":"0x1"`)
+	if od.dataType != "" {
+		jb.WriteString(`,"dataType":"` + od.dataType + `"`)
+	}
+	if od.data != "" {
+		jb.WriteString(`,"data":` + od.data)
+	}
+	jb.WriteString(`,"signature":"` + base64.StdEncoding.EncodeToString(sigb) + `"}`)
+	js := []byte(jb.String())
+	for pres := 0; pres < c13NPres; pres++ {
+		r.Eval(1)
+		var acc bool
+		var stage string
+		var id []byte
+		if p := ev.Catch(func() { acc, stage, id = c13Submit(pres, js, bin) }); p != "" {
+			r.Violation("panic-in-verify/forged/"+c13PresName[pres], fmt.Sprintf("%+v: %s", cs, p), cs)
+			continue
+		}
+		if acc && !(len(id) == 32 && refVerify(rr, ss, k.pub, id)) {
+			r.Violation("accepted-forged-signature/data="+od.name+"/"+c13PresName[pres],
+				fmt.Sprintf("Verify()==nil for a transfer from %s whose signature was built from the public key alone; id=%x (len %d), data=%s dataType=%q", k.addr, id, len(id), od.data, od.dataType), cs)
+		}
+		c.mu.Lock()
+		if acc {
+			c.accepted["forged-tx"]++
+		} else {
+			c.rejected["forged-tx"]++
+			c.stage["forged/"+stage]++
+			if stage == "verify" && len(id) != 32 {
+				c.stage["forged/verify-with-uncomputable-id"]++
+			}
+		}
+		c.mu.Unlock()
+	}
+}
+
+func (c *c13Ctx) count(k string, n int) {
+	c.mu.Lock()
+	c.stage[k] += n
+	c.mu.Unlock()
+}
+
 func c13Flip(b []byte, bit int) []byte {
 	o := append([]byte(nil), b...)
 	o[bit/8] ^= 1 << uint(bit%8)
@@ -523,6 +731,12 @@ func (c *c13Ctx) cases(ki, ti int, twoBit bool) []c13Case {
 	// r and s swapped
 	for _, v := range []byte{0, 1} {
 		add("rs-swapped", k.addr, append(append(append([]byte(nil), sOrig...), rOrig...), v))
+	}
+	// signatures forged from the public key alone for e = 0
+	for _, a := range []*big.Int{big.NewInt(1), c13HashKey("verif-c13-forge-a")} {
+		if f := refForgeE0(k.pub, a); f != nil {
+			add("forged-e0", k.addr, f)
+		}
 	}
 	// signature by every other key over this id
 	for oi, o := range c.keys {
@@ -690,7 +904,7 @@ func TestVerifC13(t *testing.T) {
 		"(r,n-s) twin, (n-r,s), r<->s, signature by every other key, signature by the same key over other ids, " +
 		"sender address = every 1-bit neighbour / contract twin / other key's address}; thorough adds every 2-bit flip for one (key,tx); " +
 		"each case through JSON, raw-JSON and binary constructors; non-trivial = distinct (key,tx,from,signature bytes); " +
-		"plus sign/recover/serialise round trip for every key x hash")
+		"plus sign/recover/serialise round trip for every key x hash; plus signatures forged from the public key alone (R=a*P, r=R.x, s=r/a) x hashes {nil, empty, 1/31/32/33/64 bytes, zero, n, real id} at the crypto level and x 16 un-hashable/odd data shapes as binary/JSON transfers from the victim")
 	r.Assume("reference secp256k1/ECDSA arithmetic written with math/big in the harness is correct (it is cross-checked against goloop on every unmutated signature)",
 		"golang.org/x/crypto/sha3 is trusted (used by both sides for the address)",
 		"the transaction id is taken from goloop (its correctness is C12); C13 checks that it does not depend on the signature",
@@ -716,8 +930,34 @@ func TestVerifC13(t *testing.T) {
 	c.keys = all[:nKeys]
 
 	if ev.Replaying() {
+		var ftx c13ForgeTx
+		ev.ReplayCase(&ftx)
+		if ftx.Forge {
+			a, _ := new(big.Int).SetString(ftx.A, 16)
+			for di := range c13OddData {
+				if c13OddData[di].name == ftx.Data {
+					c.keys = all
+					c.forgeTx(ftx.Victim, di, a)
+				}
+			}
+			r.Finish(false)
+			return
+		}
 		var cs c13Case
 		ev.ReplayCase(&cs)
+		if cs.Sig == "" && cs.Kind == "" {
+			// crypto-level cases carry their own description; re-run that whole (small) part
+			hs := c13ForgeHashes(make([]byte, 32))
+			for _, k := range all {
+				for _, a := range []*big.Int{big.NewInt(1), big.NewInt(2), c13HashKey("verif-c13-forge-a")} {
+					for _, h := range hs {
+						c.forgeCrypto(k, a, h)
+					}
+				}
+			}
+			r.Finish(false)
+			return
+		}
 		c.run(cs)
 		r.Finish(false)
 		return
@@ -747,6 +987,44 @@ func TestVerifC13(t *testing.T) {
 	ev.Par(len(rts), 16, func(i int) { c.roundTrip(all[rts[i].k], rts[i].k, hashes[rts[i].h]) })
 	r.Set("roundtrip_cases", len(rts))
 	c.keys = all[:nKeys]
+
+	// part 1b: forgeries from the public key alone, crypto level (all 8 keys)
+	{
+		c.keys = all
+		as := []*big.Int{big.NewInt(1), big.NewInt(2), c13HashKey("verif-c13-forge-a"), new(big.Int).Sub(c13N, big.NewInt(1))}
+		hs := c13ForgeHashes(hashes[0])
+		type fc struct{ k, a, h int }
+		var fcs []fc
+		for ki := range all {
+			for ai := range as {
+				for hi := range hs {
+					fcs = append(fcs, fc{ki, ai, hi})
+				}
+			}
+		}
+		ev.Par(len(fcs), 16, func(i int) { c.forgeCrypto(all[fcs[i].k], as[fcs[i].a], hs[fcs[i].h]) })
+		r.Set("forgery_crypto_cases", len(fcs))
+		// a forgery must really be one: for e = 0 the reference itself recovers the victim
+		f := refForgeE0(all[0].pub, as[2])
+		q := refRecover(new(big.Int).SetBytes(f[:32]), new(big.Int).SetBytes(f[32:64]), int(f[64]), make([]byte, 32))
+		r.Sanity(q != nil && q.X.Cmp(all[0].pub.X) == 0 && q.Y.Cmp(all[0].pub.Y) == 0, "reference forgery does not recover the victim key for e=0")
+		c.keys = all[:nKeys]
+	}
+	// part 1c: forged transfers with un-hashable / odd data, transaction level
+	{
+		as := []*big.Int{big.NewInt(1), c13HashKey("verif-c13-forge-a")}
+		type ft struct{ k, d, a int }
+		var fts []ft
+		for ki := 0; ki < nKeys; ki++ {
+			for di := range c13OddData {
+				for ai := range as {
+					fts = append(fts, ft{ki, di, ai})
+				}
+			}
+		}
+		ev.Par(len(fts), 16, func(i int) { c.forgeTx(fts[i].k, fts[i].d, as[fts[i].a]) })
+		r.Set("forgery_tx_cases", len(fts))
+	}
 
 	// part 2: mutation alphabet
 	var cases []c13Case
@@ -795,6 +1073,9 @@ func TestVerifC13(t *testing.T) {
 		r.Sanity(c.accepted["correct"] == nKeys*nTx*c13NPres, "not every correct signature was accepted: %d", c.accepted["correct"])
 		r.Sanity(c.accepted["twin"] == nKeys*nTx*c13NPres, "exactly one malleated twin per case should verify (it is a valid signature of the sender): %d", c.accepted["twin"])
 		r.Sanity(c.stage["construct"] > 0 && c.stage["verify"] > 0, "both rejection stages must occur: %v", c.stage)
+		r.Sanity(c.stage["forgery_mathematically_valid_e0_recovered"] > 0, "e=0 forgeries must be real (recover the victim for a zero hash)")
+		r.Sanity(c.stage["forged/verify-with-uncomputable-id"] > 0, "no forged transaction reached Verify with an uncomputable id: %v", c.stage)
+		r.Sanity(c.accepted["forged-tx"] == 0 && c.accepted["forged-e0"] == 0, "forged signatures accepted")
 		r.Sanity(tot(c.rejected) > 100*tot(c.accepted)/10, "suspiciously many acceptances")
 	}
 	r.Sample(cases[0])
